@@ -1,7 +1,8 @@
 import FalconModel.PipelineErr
 import FalconModel.PipelineSpec
+import FalconModel.ErrHandle
 /-! C03: the refined model `Pe.run` (error handlers, escapes) against `Pl.run`, and what the handler events and the outcome
-    satisfy.  Part 1: refinement. -/
+    satisfy.  Part 1: refinement.  Part 2: handler invocations, escapes, the success flag, the response phase. -/
 set_option linter.unusedSimpArgs false
 namespace Pe
 
@@ -224,4 +225,1026 @@ theorem run_prefix_Pl (cfg : Cfg) : proj (run cfg).1 <+: Pl.run (absCfg cfg) := 
 /-- so `Pl.run_eq_spec` describes the refined run: its calls are the documented discipline -/
 theorem run_eq_specTrace (cfg : Cfg) (h : (run cfg).2 ≠ .escaped) : proj (run cfg).1 = Pl.specTrace (absCfg cfg) := by
   rw [run_refines_Pl cfg h, Pl.run_eq_spec]
+
+/-! ## Part 2: the shape of the trace -/
+
+def Exc.escapes : Exc → Bool
+  | .app .raisesPlain | .app .none => true
+  | _ => false
+
+def Ev.isCall : Ev → Bool | .call .. => true | .handler .. => false
+def Ev.isResp : Ev → Bool | .call (.resp ..) _ => true | _ => false
+def Ev.raises : Ev → Bool | .call _ (.raise_ _) => true | _ => false
+def Ev.escapes : Ev → Bool | .call _ (.raise_ e) => e.escapes | _ => false
+/-- the handler invocation that belongs right after an event: the one `_handle_exception` makes for what the call raised -/
+def Ev.hEvents : Ev → List Ev
+  | .call c (.raise_ e) => (handle c.site e).1
+  | _ => []
+/-- a call before the response phase that neither raises … -/
+def Ev.quiet : Ev → Bool
+  | .call (.resp ..) _ => false
+  | .call _ (.raise_ _) => false
+  | .call _ _ => true
+  | .handler .. => false
+
+theorem handle_escapes (s : Site) (e : Exc) : (handle s e).2 = none ↔ e.escapes = true := by
+  cases e with
+  | http c => simp [handle, Exc.escapes]
+  | status => simp [handle, Exc.escapes]
+  | app h => cases h <;> simp [handle, Exc.escapes]
+
+theorem handle_events (s : Site) (e : Exc) :
+    ∀ ev ∈ (handle s e).1, ev = .handler s e := by
+  cases e with
+  | http c => simp [handle]
+  | status => simp [handle]
+  | app h => cases h <;> simp [handle]
+
+/-- a handler is invoked for every raise except the one nothing is registered for; exactly once, with that error -/
+theorem handle_once (s : Site) (e : Exc) :
+    (handle s e).1 = if e = .app .none then [] else [.handler s e] := by
+  cases e with
+  | http c => simp [handle]
+  | status => simp [handle]
+  | app h => cases h <;> simp [handle]
+
+def lastOf : Option (Call × Exc) → List Ev
+  | none => []
+  | some (c, e) => [.call c (.raise_ e)]
+
+def isRespCall : Call → Bool | .resp .. => true | _ => false
+
+/-- what a `try` body leaves: calls that return or complete, then (if it ended with an exception) the call that raised it -/
+def Shape (t : List Ev) (x : Option (Call × Exc)) : Prop :=
+  ∃ init, init.all Ev.quiet = true ∧ t = init ++ lastOf x ∧ ∀ c e, x = some (c, e) → isRespCall c = false
+
+theorem reqIndep_shape : ∀ l : List (Nat × Comp), Shape (reqIndep l).1 (reqIndep l).2.2 := by
+  intro l
+  induction l with
+  | nil => exact ⟨[], rfl, rfl, by simp [reqIndep]⟩
+  | cons x xs ih =>
+    obtain ⟨i, c⟩ := x
+    cases hr : c.req with
+    | none => simpa [reqIndep, hr] using ih
+    | some a =>
+      cases a with
+      | ret =>
+        obtain ⟨init, h1, h2, h3⟩ := ih
+        exact ⟨.call (.req i) .ret :: init, by simpa [Ev.quiet] using h1, by simp [reqIndep, hr, h2], by simpa [reqIndep, hr] using h3⟩
+      | complete => exact ⟨[.call (.req i) .complete], by simp [Ev.quiet], by simp [reqIndep, hr, lastOf], by simp [reqIndep, hr]⟩
+      | raise_ e => exact ⟨[], rfl, by simp [reqIndep, hr, lastOf], by simp [reqIndep, hr, isRespCall]⟩
+
+theorem rsrcLoop_shape : ∀ l : List (Nat × Comp), Shape (rsrcLoop l).1 (rsrcLoop l).2.2 := by
+  intro l
+  induction l with
+  | nil => exact ⟨[], rfl, rfl, by simp [rsrcLoop]⟩
+  | cons x xs ih =>
+    obtain ⟨i, c⟩ := x
+    cases hr : c.rsrc with
+    | none => simpa [rsrcLoop, hr] using ih
+    | some a =>
+      cases a with
+      | ret =>
+        obtain ⟨init, h1, h2, h3⟩ := ih
+        exact ⟨.call (.rsrc i) .ret :: init, by simpa [Ev.quiet] using h1, by simp [rsrcLoop, hr, h2], by simpa [rsrcLoop, hr] using h3⟩
+      | complete => exact ⟨[.call (.rsrc i) .complete], by simp [Ev.quiet], by simp [rsrcLoop, hr, lastOf], by simp [rsrcLoop, hr]⟩
+      | raise_ e => exact ⟨[], rfl, by simp [rsrcLoop, hr, lastOf], by simp [rsrcLoop, hr, isRespCall]⟩
+
+theorem reqDep_shape : ∀ (l : List (Nat × Comp)) (cp : Bool), Shape (reqDep l cp).1 (reqDep l cp).2.2.1 := by
+  intro l
+  induction l with
+  | nil => intro cp; exact ⟨[], rfl, rfl, by simp [reqDep]⟩
+  | cons x xs ih =>
+    intro cp
+    obtain ⟨i, c⟩ := x
+    cases cp with
+    | true => simpa [reqDep] using ih true
+    | false =>
+      cases hr : c.req with
+      | none => simpa [reqDep, hr] using ih false
+      | some a =>
+        cases a with
+        | ret =>
+          obtain ⟨init, h1, h2, h3⟩ := ih false
+          exact ⟨.call (.req i) .ret :: init, by simpa [Ev.quiet] using h1, by simp [reqDep, hr, h2], by simpa [reqDep, hr] using h3⟩
+        | complete =>
+          obtain ⟨init, h1, h2, h3⟩ := ih true
+          exact ⟨.call (.req i) .complete :: init, by simpa [Ev.quiet] using h1, by simp [reqDep, hr, h2], by simpa [reqDep, hr] using h3⟩
+        | raise_ e => exact ⟨[], rfl, by simp [reqDep, hr, lastOf], by simp [reqDep, hr, isRespCall]⟩
+
+theorem responderOf_notResp (cfg : Cfg) : isRespCall (responderOf cfg).1 = false := by
+  unfold responderOf; cases cfg.target <;> rfl
+
+theorem quiet_ret (c : Call) (h : isRespCall c = false) : Ev.quiet (.call c .ret) = true := by
+  cases c <;> first | rfl | (simp [isRespCall] at h)
+theorem quiet_complete (c : Call) (h : isRespCall c = false) : Ev.quiet (.call c .complete) = true := by
+  cases c <;> first | rfl | (simp [isRespCall] at h)
+
+theorem tryBody2_shape (cfg : Cfg) (cs : List (Nat × Comp)) (cp1 hasRes : Bool) :
+    Shape (tryBody2 cfg cs cp1 hasRes).1 (tryBody2 cfg cs cp1 hasRes).2 := by
+  have hR := rsrcLoop_shape cs
+  unfold tryBody2
+  rcases hr : rsrcLoop cs with ⟨t2, cp2, x2⟩
+  rw [hr] at hR
+  have hR' : Shape (if hasRes = true then (t2, cp2, x2) else ([], false, none)).1 (if hasRes = true then (t2, cp2, x2) else ([], false, none)).2.2 := by
+    cases hasRes
+    · exact ⟨[], rfl, rfl, by simp⟩
+    · exact hR
+  generalize (if hasRes = true then (t2, cp2, x2) else ([], false, none)) = r at hR'
+  obtain ⟨t2', cp2', x2'⟩ := r
+  cases x2' with
+  | some ce => exact hR'
+  | none =>
+    obtain ⟨i2, q2, e2, _⟩ := hR'
+    simp only [lastOf, List.append_nil] at e2
+    rw [e2]
+    simp only
+    have hn := responderOf_notResp cfg
+    split
+    · exact ⟨i2, q2, by simp [lastOf], by simp⟩
+    · rcases hro : responderOf cfg with ⟨c, a⟩
+      rw [hro] at hn
+      cases a with
+      | ret => exact ⟨i2 ++ [.call c .ret], by simp [q2, quiet_ret c hn], by simp [lastOf], by simp⟩
+      | complete => exact ⟨i2 ++ [.call c .complete], by simp [q2, quiet_complete c hn], by simp [lastOf], by simp⟩
+      | raise_ e => exact ⟨i2, q2, by simp [lastOf], by simpa using hn⟩
+
+theorem afterReq_shape (cfg : Cfg) (cs : List (Nat × Comp)) (order : List Nat) (t1 : List Ev) (cp1 : Bool)
+    (x1 : Option (Call × Exc)) (hs : Shape t1 x1) :
+    Shape (afterReq cfg cs order t1 cp1 x1).1 (afterReq cfg cs order t1 cp1 x1).2.1 := by
+  cases x1 with
+  | some ce => exact hs
+  | none =>
+    obtain ⟨init, q1, rfl, _⟩ := hs
+    obtain ⟨i2, q2, e2, r2⟩ := tryBody2_shape cfg cs cp1 (!cp1 && (cfg.target == .route || cfg.target == .noMethod))
+    exact ⟨init ++ i2, by simp [q1, q2], by simp only [afterReq]; rw [e2]; simp [lastOf], r2⟩
+
+theorem tries_shape (cfg : Cfg) : Shape (tries cfg).1 (tries cfg).2.1 := by
+  unfold tries
+  cases hind : cfg.independent
+  · exact afterReq_shape _ _ _ _ _ _ (reqDep_shape (enum cfg.comps) false)
+  · exact afterReq_shape _ _ _ _ _ _ (reqIndep_shape (enum cfg.comps))
+
+
+/-! ### the run, taken apart -/
+
+theorem afterReq_order (cfg : Cfg) (cs : List (Nat × Comp)) (order : List Nat) (t1 : List Ev) (cp1 : Bool)
+    (x1 : Option (Call × Exc)) : (afterReq cfg cs order t1 cp1 x1).2.2.2 = order := by
+  cases x1 <;> rfl
+
+/-- the response stack in independent mode: every component defining `process_response`, last registered first -/
+theorem tries_order_independent (cfg : Cfg) (h : cfg.independent = true) :
+    (tries cfg).2.2.2 = (((enum cfg.comps).filter (·.2.resp.isSome)).map (·.1)).reverse := by
+  unfold tries; simp only [h, if_true]; exact afterReq_order ..
+
+/-- `run` = quiet calls, then possibly one raising call with its handler, then the response loop (unless that call's
+    exception escaped) -/
+theorem run_decomp (cfg : Cfg) : ∃ init : List Ev, init.all Ev.quiet = true ∧
+    match (tries cfg).2.1 with
+    | none => run cfg = (init ++ (respLoop (enum cfg.comps) (tries cfg).2.2.2 (tries cfg).2.2.1 true .ok).1,
+                         (respLoop (enum cfg.comps) (tries cfg).2.2.2 (tries cfg).2.2.1 true .ok).2)
+    | some (c, e) => isRespCall c = false ∧
+      match (handle c.site e).2 with
+      | none => run cfg = (init ++ .call c (.raise_ e) :: (handle c.site e).1, .escaped)
+      | some st => run cfg = (init ++ .call c (.raise_ e) :: (handle c.site e).1 ++
+                                (respLoop (enum cfg.comps) (tries cfg).2.2.2 (tries cfg).2.2.1 false st).1,
+                              (respLoop (enum cfg.comps) (tries cfg).2.2.2 (tries cfg).2.2.1 false st).2) := by
+  obtain ⟨init, q, e1, r⟩ := tries_shape cfg
+  refine ⟨init, q, ?_⟩
+  unfold run
+  rcases ht : tries cfg with ⟨pre, x, hasRes, order⟩
+  rw [ht] at e1 r
+  simp only at e1 r ⊢
+  cases x with
+  | none => simp [exceptClause, e1, lastOf]
+  | some ce =>
+    obtain ⟨c, e⟩ := ce
+    refine ⟨r c e rfl, ?_⟩
+    simp only [exceptClause]
+    rcases hh : handle c.site e with ⟨h, _ | st⟩ <;> simp [e1, lastOf]
+
+
+/-! ### every raise gets its handler invocation: once, right away, at its site -/
+
+/-- the trace is its calls with, after each call, the handler invocation that belongs to it -/
+def WH (t : List Ev) : Prop := t = (t.filter Ev.isCall).flatMap (fun ev => ev :: ev.hEvents)
+
+theorem WH_append {a b : List Ev} (ha : WH a) (hb : WH b) : WH (a ++ b) := by
+  unfold WH at *
+  rw [List.filter_append, List.flatMap_append, ← ha, ← hb]
+
+theorem quiet_props (ev : Ev) (h : ev.quiet = true) :
+    ev.isCall = true ∧ ev.hEvents = [] ∧ ev.raises = false ∧ ev.escapes = false ∧ ev.isResp = false := by
+  cases ev with
+  | handler s e => simp [Ev.quiet] at h
+  | call c a =>
+    cases a with
+    | raise_ e => cases c <;> simp [Ev.quiet] at h
+    | ret => cases c <;> first | (simp [Ev.quiet] at h; done) | simp [Ev.isCall, Ev.hEvents, Ev.raises, Ev.escapes, Ev.isResp]
+    | complete => cases c <;> first | (simp [Ev.quiet] at h; done) | simp [Ev.isCall, Ev.hEvents, Ev.raises, Ev.escapes, Ev.isResp]
+
+theorem WH_quiet : ∀ t : List Ev, t.all Ev.quiet = true → WH t
+  | [], _ => by simp [WH]
+  | ev :: rest, h => by
+    simp only [List.all_cons, Bool.and_eq_true] at h
+    have p := quiet_props ev h.1
+    have ih := WH_quiet rest h.2
+    unfold WH at *
+    simp only [List.filter_cons, p.1, if_true, List.flatMap_cons, p.2.1, List.cons_append, List.nil_append]
+    rw [← ih]
+
+theorem handle_filter_isCall (s : Site) (e : Exc) : (handle s e).1.filter Ev.isCall = [] := by
+  rw [handle_once]; split <;> simp [Ev.isCall]
+
+theorem WH_raise (c : Call) (e : Exc) : WH (.call c (.raise_ e) :: (handle c.site e).1) := by
+  unfold WH
+  simp [List.filter_cons, Ev.isCall, handle_filter_isCall, Ev.hEvents]
+
+theorem WH_call (c : Call) (a : Act) (h : ∀ e, a ≠ .raise_ e) : WH [.call c a] := by
+  unfold WH
+  cases a with
+  | raise_ e => exact absurd rfl (h e)
+  | ret => simp [List.filter_cons, Ev.isCall, Ev.hEvents]
+  | complete => simp [List.filter_cons, Ev.isCall, Ev.hEvents]
+
+theorem respLoop_WH (cs : List (Nat × Comp)) (hasRes : Bool) : ∀ (order : List Nat) (succ : Bool) (st : Status),
+    WH (respLoop cs order hasRes succ st).1 := by
+  intro order
+  induction order with
+  | nil => intro succ st; simp [respLoop, WH]
+  | cons i rest ih =>
+    intro succ st
+    rw [respLoop]
+    cases h : (cs.find? (·.1 == i)).bind (·.2.resp) with
+    | none => exact ih succ st
+    | some a =>
+      cases a with
+      | ret => exact WH_append (WH_call _ .ret (by simp)) (ih succ st)
+      | complete => exact WH_append (WH_call _ .complete (by simp)) (ih succ st)
+      | raise_ e =>
+        have hw := WH_raise (.resp i hasRes succ) e
+        simp only [Call.site] at hw
+        rcases hh : handle (.resp i) e with ⟨h, _ | st'⟩
+        · rw [hh] at hw; simp only [hh]; exact hw
+        · rw [hh] at hw
+          have := WH_append hw (ih false st')
+          simp only [hh]
+          simpa using this
+
+/-- **every raise gets its handler invocation — once, right after the call that raised, for that error at that site — and
+    no handler runs otherwise**: the trace is recovered from its calls by inserting after each call what
+    `_handle_exception` invokes for what the call raised (`handle_once`: nothing if the call does not raise or no handler
+    exists, else exactly one `handler site error` event) -/
+theorem handler_called_once_per_raise_at_its_site (cfg : Cfg) : WH (run cfg).1 := by
+  obtain ⟨init, q, h⟩ := run_decomp cfg
+  have hq := WH_quiet init q
+  cases hx : (tries cfg).2.1 with
+  | none =>
+    rw [hx] at h; simp only at h
+    rw [h]; exact WH_append hq (respLoop_WH ..)
+  | some ce =>
+    obtain ⟨c, e⟩ := ce
+    rw [hx] at h; simp only at h
+    cases hh : (handle c.site e).2 with
+    | none => rw [hh] at h; rw [h.2]; exact WH_append hq (WH_raise c e)
+    | some st =>
+      rw [hh] at h; rw [h.2]
+      have := WH_append hq (WH_append (WH_raise c e) (respLoop_WH (enum cfg.comps) (tries cfg).2.2.1 (tries cfg).2.2.2 false st))
+      simpa using this
+
+
+/-! ### an exception that is not dealt with ends everything -/
+
+/-- right after the first call whose exception escapes come only its handler's invocation (if there is a handler) and
+    the end of the trace -/
+def Stops : List Ev → Prop
+  | [] => True
+  | ev :: rest => if ev.escapes = true then rest = ev.hEvents else Stops rest
+
+theorem Stops_quiet_append : ∀ (init b : List Ev), init.all Ev.quiet = true → (Stops (init ++ b) ↔ Stops b)
+  | [], _, _ => Iff.rfl
+  | ev :: rest, b, h => by
+    simp only [List.all_cons, Bool.and_eq_true] at h
+    have p := quiet_props ev h.1
+    simp only [List.cons_append, Stops, p.2.2.2.1, Bool.false_eq_true, if_false]
+    exact Stops_quiet_append rest b h.2
+
+theorem any_quiet : ∀ (init : List Ev), init.all Ev.quiet = true → init.any Ev.escapes = false
+  | [], _ => rfl
+  | ev :: rest, h => by
+    simp only [List.all_cons, Bool.and_eq_true] at h
+    simp [(quiet_props ev h.1).2.2.2.1, any_quiet rest h.2]
+
+theorem handle_no_escape (s : Site) (e : Exc) : (handle s e).1.any Ev.escapes = false := by
+  rw [handle_once]; split <;> simp [Ev.escapes]
+
+theorem Stops_handler_append (s : Site) (e : Exc) (b : List Ev) : Stops ((handle s e).1 ++ b) ↔ Stops b := by
+  rw [handle_once]; split <;> simp [Stops, Ev.escapes]
+
+theorem respLoop_stops (cs : List (Nat × Comp)) (hasRes : Bool) : ∀ (order : List Nat) (succ : Bool) (st : Status),
+    Stops (respLoop cs order hasRes succ st).1 ∧
+    ((respLoop cs order hasRes succ st).2 = .escaped ↔ (respLoop cs order hasRes succ st).1.any Ev.escapes = true) := by
+  intro order
+  induction order with
+  | nil => intro succ st; simp [respLoop, Stops]
+  | cons i rest ih =>
+    intro succ st
+    rw [respLoop]
+    cases h : (cs.find? (·.1 == i)).bind (·.2.resp) with
+    | none => exact ih succ st
+    | some a =>
+      cases a with
+      | ret => simpa [Stops, Ev.escapes] using ih succ st
+      | complete => simpa [Stops, Ev.escapes] using ih succ st
+      | raise_ e =>
+        have hn := handle_no_escape (.resp i) e
+        have hs := Stops_handler_append (.resp i) e
+        have he := handle_escapes (.resp i) e
+        rcases hh : handle (.resp i) e with ⟨h, _ | st'⟩
+        · rw [hh] at hn he
+          have : e.escapes = true := he.mp rfl
+          simp [hh, Stops, Ev.escapes, this, Ev.hEvents, Call.site]
+        · rw [hh] at hn he hs
+          have hf : e.escapes = false := by
+            cases hb : e.escapes with
+            | false => rfl
+            | true => exact absurd (he.mpr hb) (by simp)
+          have ihh := ih false st'
+          simp only [hh]
+          simp only [List.cons_append, Stops, Ev.escapes, hf, hn, Bool.false_eq_true, if_false, List.any_cons, List.any_append, Bool.false_or]
+          exact ⟨(hs _).mpr ihh.1, ihh.2⟩
+
+/-- every escaping call is followed by its handler's invocation (if any) and nothing else; and the run's outcome is
+    `escaped` exactly when the trace contains such a call -/
+theorem run_stops (cfg : Cfg) :
+    Stops (run cfg).1 ∧ ((run cfg).2 = .escaped ↔ (run cfg).1.any Ev.escapes = true) := by
+  obtain ⟨init, q, h⟩ := run_decomp cfg
+  have hq := any_quiet init q
+  cases hx : (tries cfg).2.1 with
+  | none =>
+    rw [hx] at h; simp only at h
+    have := respLoop_stops (enum cfg.comps) (tries cfg).2.2.1 (tries cfg).2.2.2 true .ok
+    rw [h]
+    exact ⟨(Stops_quiet_append _ _ q).mpr this.1, by simpa [hq] using this.2⟩
+  | some ce =>
+    obtain ⟨c, e⟩ := ce
+    rw [hx] at h; simp only at h
+    have he := handle_escapes c.site e
+    have hn := handle_no_escape c.site e
+    cases hh : (handle c.site e).2 with
+    | none =>
+      rw [hh] at h; rw [h.2]
+      have : e.escapes = true := he.mp hh
+      refine ⟨(Stops_quiet_append _ _ q).mpr ?_, ?_⟩
+      · simp [Stops, Ev.escapes, this, Ev.hEvents]
+      · simp [Ev.escapes, this]
+    | some st =>
+      rw [hh] at h; rw [h.2]
+      have hf : e.escapes = false := by
+        cases hb : e.escapes with
+        | false => rfl
+        | true => rw [he.mpr hb] at hh; cases hh
+      have := respLoop_stops (enum cfg.comps) (tries cfg).2.2.1 (tries cfg).2.2.2 false st
+      simp only [List.append_assoc, List.cons_append]
+      refine ⟨(Stops_quiet_append _ _ q).mpr ?_, ?_⟩
+      · simp only [Stops, Ev.escapes, hf, Bool.false_eq_true, if_false]
+        exact (Stops_handler_append _ _ _).mpr this.1
+      · simp only [List.any_append, List.any_cons, hq, Ev.escapes, hf, hn, Bool.false_or]
+        exact this.2
+
+theorem Stops_split : ∀ (pre : List Ev) (ev : Ev) (post : List Ev), Stops (pre ++ ev :: post) → ev.escapes = true →
+    post = ev.hEvents
+  | [], ev, post, h, he => by simpa [Stops, he] using h
+  | p :: pre, ev, post, h, he => by
+    simp only [List.cons_append, Stops] at h
+    split at h
+    · -- an earlier escaping call: the trace would already have ended with handler events, none of which is a call that escapes
+      rename_i hp
+      have hmem : ev ∈ p.hEvents := by rw [← h]; simp
+      cases p with
+      | handler s e => simp [Ev.escapes] at hp
+      | call c a =>
+        cases a with
+        | ret => simp [Ev.escapes] at hp
+        | complete => simp [Ev.escapes] at hp
+        | raise_ e =>
+          have := handle_events c.site e ev hmem
+          subst this
+          simp [Ev.escapes] at he
+    · exact Stops_split pre ev post h he
+
+/-- **an unhandled exception propagates and stops everything**: if a call raises an error for which no handler exists, or
+    whose handler raises a plain exception, then after that call come only the handler's invocation (when there is a
+    handler) and the end of the trace — no further `process_response`, no responder — and the outcome is `escaped` -/
+theorem unhandled_propagates_and_stops (cfg : Cfg) (pre post : List Ev) (c : Call) (e : Exc)
+    (h : (run cfg).1 = pre ++ .call c (.raise_ e) :: post) (he : e = .app .none ∨ e = .app .raisesPlain) :
+    post = (if e = .app .none then [] else [.handler c.site e]) ∧ (run cfg).2 = .escaped := by
+  have hs := run_stops cfg
+  have hesc : (Ev.call c (.raise_ e)).escapes = true := by rcases he with rfl | rfl <;> rfl
+  constructor
+  · have := Stops_split pre _ post (h ▸ hs.1) hesc
+    rw [this, Ev.hEvents, handle_once]
+  · rw [hs.2, h]; simp [hesc]
+
+/-- **the request escapes iff some call that was made raised an error that has no handler or whose handler raised a plain
+    exception** (`labels_correct`: that is the action the configuration assigns to that method) -/
+theorem escape_iff (cfg : Cfg) :
+    (run cfg).2 = .escaped ↔ ∃ c e, Ev.call c (.raise_ e) ∈ (run cfg).1 ∧ (e = .app .none ∨ e = .app .raisesPlain) := by
+  rw [(run_stops cfg).2, List.any_eq_true]
+  constructor
+  · rintro ⟨ev, hm, he⟩
+    cases ev with
+    | handler s e => simp [Ev.escapes] at he
+    | call c a =>
+      cases a with
+      | ret => simp [Ev.escapes] at he
+      | complete => simp [Ev.escapes] at he
+      | raise_ e =>
+        refine ⟨c, e, hm, ?_⟩
+        cases e with
+        | http c => simp [Ev.escapes, Exc.escapes] at he
+        | status => simp [Ev.escapes, Exc.escapes] at he
+        | app hb => cases hb <;> simp [Ev.escapes, Exc.escapes] at he ⊢
+  · rintro ⟨c, e, hm, he⟩
+    exact ⟨_, hm, by rcases he with rfl | rfl <;> rfl⟩
+
+
+/-! ### `req_succeeded` -/
+
+/-- every `process_response` call in the list carries the flag "nothing raised so far", starting from `ok` -/
+def FlagsOk : Bool → List Ev → Prop
+  | _, [] => True
+  | ok, ev :: rest => (∀ i h s a, ev = .call (.resp i h s) a → s = ok) ∧ FlagsOk (ok && !ev.raises) rest
+
+theorem FlagsOk_quiet_append : ∀ (init b : List Ev) (ok : Bool), init.all Ev.quiet = true →
+    (FlagsOk ok (init ++ b) ↔ FlagsOk ok b)
+  | [], _, _, _ => Iff.rfl
+  | ev :: rest, b, ok, h => by
+    simp only [List.all_cons, Bool.and_eq_true] at h
+    have p := quiet_props ev h.1
+    simp only [List.cons_append, FlagsOk, p.2.2.1, Bool.not_false, Bool.and_true]
+    rw [FlagsOk_quiet_append rest b ok h.2]
+    constructor
+    · exact fun h => h.2
+    · refine fun h => ⟨?_, h⟩
+      intro i hh s a he
+      rw [he] at p
+      simp [Ev.isResp] at p
+
+theorem FlagsOk_handler_append (s : Site) (e : Exc) (b : List Ev) (ok : Bool) :
+    FlagsOk ok ((handle s e).1 ++ b) ↔ FlagsOk ok b := by
+  rw [handle_once]; split <;> simp [FlagsOk, Ev.raises]
+
+theorem flag_self (i : Nat) (h s : Bool) (a : Act) :
+    ∀ i' h' s' a', Ev.call (.resp i h s) a = .call (.resp i' h' s') a' → s' = s := by
+  intro _ _ _ _ he; injection he with he _; injection he with _ _ he; exact he.symm
+
+theorem respLoop_flags (cs : List (Nat × Comp)) (hasRes : Bool) : ∀ (order : List Nat) (succ : Bool) (st : Status),
+    FlagsOk succ (respLoop cs order hasRes succ st).1 := by
+  intro order
+  induction order with
+  | nil => intro succ st; simp [respLoop, FlagsOk]
+  | cons i rest ih =>
+    intro succ st
+    rw [respLoop]
+    cases h : (cs.find? (·.1 == i)).bind (·.2.resp) with
+    | none => exact ih succ st
+    | some a =>
+      cases a with
+      | ret =>
+        simp only [FlagsOk, Ev.raises, Bool.not_false, Bool.and_true]
+        exact ⟨flag_self _ _ _ _, ih succ st⟩
+      | complete =>
+        simp only [FlagsOk, Ev.raises, Bool.not_false, Bool.and_true]
+        exact ⟨flag_self _ _ _ _, ih succ st⟩
+      | raise_ e =>
+        have hs := FlagsOk_handler_append (.resp i) e
+        rcases hh : handle (.resp i) e with ⟨h, _ | st'⟩
+        · rw [hh] at hs
+          simp only [hh, FlagsOk, Ev.raises, Bool.not_true, Bool.and_false]
+          refine ⟨flag_self _ _ _ _, ?_⟩
+          have := (hs [] false).mpr (by simp [FlagsOk])
+          simpa using this
+        · rw [hh] at hs
+          simp only [hh, List.cons_append, FlagsOk, Ev.raises, Bool.not_true, Bool.and_false]
+          exact ⟨flag_self _ _ _ _, (hs _ false).mpr (ih false st')⟩
+
+theorem run_flags (cfg : Cfg) : FlagsOk true (run cfg).1 := by
+  obtain ⟨init, q, h⟩ := run_decomp cfg
+  cases hx : (tries cfg).2.1 with
+  | none =>
+    rw [hx] at h; simp only at h
+    rw [h]; exact (FlagsOk_quiet_append _ _ _ q).mpr (respLoop_flags ..)
+  | some ce =>
+    obtain ⟨c, e⟩ := ce
+    rw [hx] at h; simp only at h
+    have hnr : ∀ i hh s a, Ev.call c (Act.raise_ e) = Ev.call (Call.resp i hh s) a → s = true := by
+      intro i hh s a he
+      injection he with he _
+      rw [he] at h
+      simp [isRespCall] at h
+    cases hh : (handle c.site e).2 with
+    | none =>
+      rw [hh] at h; rw [h.2]
+      refine (FlagsOk_quiet_append _ _ _ q).mpr ?_
+      simp only [FlagsOk, Ev.raises, Bool.not_true, Bool.and_false]
+      refine ⟨hnr, ?_⟩
+      have := (FlagsOk_handler_append c.site e [] false).mpr (by simp [FlagsOk])
+      simpa using this
+    | some st =>
+      rw [hh] at h; rw [h.2]
+      simp only [List.append_assoc, List.cons_append]
+      refine (FlagsOk_quiet_append _ _ _ q).mpr ?_
+      simp only [FlagsOk, Ev.raises, Bool.not_true, Bool.and_false]
+      exact ⟨hnr, (FlagsOk_handler_append _ _ _ false).mpr (respLoop_flags ..)⟩
+
+theorem FlagsOk_at : ∀ (t : List Ev) (ok : Bool) (k : Nat) (i : Nat) (h s : Bool) (a : Act), FlagsOk ok t →
+    t[k]? = some (.call (.resp i h s) a) → s = (ok && (t.take k).all (fun ev => !ev.raises))
+  | [], _, _, _, _, _, _, _, he => by simp at he
+  | ev :: rest, ok, 0, i, h, s, a, hf, he => by
+    simp only [List.getElem?_cons_zero, Option.some.injEq] at he
+    simpa using hf.1 i h s a he
+  | ev :: rest, ok, k + 1, i, h, s, a, hf, he => by
+    simp only [List.getElem?_cons_succ] at he
+    have := FlagsOk_at rest (ok && !ev.raises) k i h s a hf.2 he
+    simp only [this, List.take_succ_cons, List.all_cons, Bool.and_assoc]
+
+/-- **the success flag is true exactly when nothing raised**: whatever position a `process_response` call has in the trace,
+    its `req_succeeded` argument is true iff no call before it raised — no request / resource method, not the responder
+    (the application's or falcon's 404/405 one), no earlier `process_response` — handled or not -/
+theorem succeeded_iff_nothing_raised (cfg : Cfg) (k i : Nat) (h s : Bool) (a : Act)
+    (he : (run cfg).1[k]? = some (.call (.resp i h s) a)) :
+    s = ((run cfg).1.take k).all (fun ev => !ev.raises) := by
+  simpa using FlagsOk_at _ true k i h s a (run_flags cfg) he
+
+
+/-! ### the response phase goes on after a handled raise -/
+
+def Act.escapes : Act → Bool | .raise_ e => e.escapes | _ => false
+def Act.raises : Act → Bool | .raise_ _ => true | _ => false
+
+/-- the `process_response` methods met when walking the response stack, with what each does -/
+def respActs (cs : List (Nat × Comp)) (order : List Nat) : List (Nat × Act) :=
+  order.filterMap fun i => ((cs.find? (·.1 == i)).bind (·.2.resp)).map (i, ·)
+
+theorem respActs_cons_none (cs : List (Nat × Comp)) (i : Nat) (rest : List Nat)
+    (h : (cs.find? (·.1 == i)).bind (·.2.resp) = none) : respActs cs (i :: rest) = respActs cs rest := by
+  unfold respActs; rw [List.filterMap_cons, h]; rfl
+
+theorem respActs_cons_some (cs : List (Nat × Comp)) (i : Nat) (rest : List Nat) (a : Act)
+    (h : (cs.find? (·.1 == i)).bind (·.2.resp) = some a) : respActs cs (i :: rest) = (i, a) :: respActs cs rest := by
+  unfold respActs; rw [List.filterMap_cons, h]; rfl
+
+theorem handle_filter_isResp (s : Site) (e : Exc) : (handle s e).1.filter Ev.isResp = [] := by
+  rw [handle_once]; split <;> simp [Ev.isResp]
+
+/-- the `k`-th method of the response stack IS called — with `resource`, and with `req_succeeded` = the flag the loop
+    started with and no earlier `process_response` raised — provided no earlier one let an exception escape;
+    earlier ones that raised errors which were handled do not stop the loop -/
+theorem respLoop_call_at (cs : List (Nat × Comp)) (hasRes : Bool) :
+    ∀ (order : List Nat) (succ : Bool) (st : Status) (k j : Nat) (a : Act),
+    (respActs cs order)[k]? = some (j, a) →
+    ((respActs cs order).take k).all (fun p => !p.2.escapes) = true →
+    ((respLoop cs order hasRes succ st).1.filter Ev.isCall)[k]? =
+      some (.call (.resp j hasRes (succ && ((respActs cs order).take k).all (fun p => !p.2.raises))) a) := by
+  intro order
+  induction order with
+  | nil => intro succ st k j a hk; simp [respActs] at hk
+  | cons i rest ih =>
+    intro succ st k j a hk hno
+    rw [respLoop]
+    cases h : (cs.find? (·.1 == i)).bind (·.2.resp) with
+    | none =>
+      rw [respActs_cons_none cs i rest h] at hk hno ⊢
+      exact ih succ st k j a hk hno
+    | some b =>
+      rw [respActs_cons_some cs i rest b h] at hk hno ⊢
+      cases k with
+      | zero =>
+        simp only [List.getElem?_cons_zero, Option.some.injEq, Prod.mk.injEq] at hk
+        obtain ⟨rfl, rfl⟩ := hk
+        cases b with
+        | ret => simp [List.filter_cons, Ev.isCall]
+        | complete => simp [List.filter_cons, Ev.isCall]
+        | raise_ e => rcases hh : handle (.resp i) e with ⟨hd, _ | st'⟩ <;> simp [hh, List.filter_cons, Ev.isCall]
+      | succ k =>
+        simp only [List.getElem?_cons_succ] at hk
+        simp only [List.take_succ_cons, List.all_cons, Bool.and_eq_true, Bool.not_eq_true'] at hno
+        cases b with
+        | ret =>
+          have := ih succ st k j a hk hno.2
+          simpa [List.filter_cons, Ev.isCall, Act.raises] using this
+        | complete =>
+          have := ih succ st k j a hk hno.2
+          simpa [List.filter_cons, Ev.isCall, Act.raises] using this
+        | raise_ e =>
+          have hf := handle_filter_isCall (.resp i) e
+          have he := handle_escapes (.resp i) e
+          rcases hh : handle (.resp i) e with ⟨hd, _ | st'⟩
+          · rw [hh] at he
+            have : e.escapes = true := he.mp rfl
+            simp [Act.escapes, this] at hno
+          · rw [hh] at hf
+            have := ih false st' k j a hk hno.2
+            simp only at hf
+            simpa [hh, List.filter_cons, Ev.isCall, Act.raises, hf] using this
+
+theorem respLoop_filter (cs : List (Nat × Comp)) (hasRes : Bool) : ∀ (order : List Nat) (succ : Bool) (st : Status),
+    (respLoop cs order hasRes succ st).1.filter Ev.isResp = (respLoop cs order hasRes succ st).1.filter Ev.isCall := by
+  intro order
+  induction order with
+  | nil => intro succ st; simp [respLoop]
+  | cons i rest ih =>
+    intro succ st
+    rw [respLoop]
+    cases h : (cs.find? (·.1 == i)).bind (·.2.resp) with
+    | none => exact ih succ st
+    | some a =>
+      cases a with
+      | ret => simpa [List.filter_cons, Ev.isCall, Ev.isResp] using ih succ st
+      | complete => simpa [List.filter_cons, Ev.isCall, Ev.isResp] using ih succ st
+      | raise_ e =>
+        have h1 := handle_filter_isCall (.resp i) e
+        have h2 := handle_filter_isResp (.resp i) e
+        rcases hh : handle (.resp i) e with ⟨hd, _ | st'⟩
+        · rw [hh] at h1 h2; simp only at h1 h2
+          simp [hh, List.filter_cons, Ev.isCall, Ev.isResp, h1, h2]
+        · rw [hh] at h1 h2; simp only at h1 h2
+          simpa [hh, List.filter_cons, Ev.isCall, Ev.isResp, h1, h2] using ih false st'
+
+theorem filter_isResp_quiet : ∀ init : List Ev, init.all Ev.quiet = true → init.filter Ev.isResp = []
+  | [], _ => rfl
+  | ev :: rest, h => by
+    simp only [List.all_cons, Bool.and_eq_true] at h
+    simp [List.filter_cons, (quiet_props ev h.1).2.2.2.2, filter_isResp_quiet rest h.2]
+
+theorem isResp_of_notRespCall (c : Call) (a : Act) (h : isRespCall c = false) : (Ev.call c a).isResp = false := by
+  cases c <;> first | rfl | (simp [isRespCall] at h)
+
+/-- **the `k`-th method of the response stack is called whatever the earlier ones did, short of letting an exception
+    escape**: if the exception (if any) that ended the request/resource/responder phase was handled and none of the first
+    `k` `process_response` methods raises an error that escapes, then the `k`-th one is called, with `req_succeeded` true iff
+    nothing raised before it -/
+theorem resp_call_at (cfg : Cfg) (k j : Nat) (a : Act)
+    (hx : ∀ c e, (tries cfg).2.1 = some (c, e) → e.escapes = false)
+    (hk : (respActs (enum cfg.comps) (tries cfg).2.2.2)[k]? = some (j, a))
+    (hno : ((respActs (enum cfg.comps) (tries cfg).2.2.2).take k).all (fun p => !p.2.escapes) = true) :
+    ((run cfg).1.filter Ev.isResp)[k]? =
+      some (.call (.resp j (tries cfg).2.2.1
+        (!(tries cfg).2.1.isSome && ((respActs (enum cfg.comps) (tries cfg).2.2.2).take k).all (fun p => !p.2.raises))) a) := by
+  obtain ⟨init, q, h⟩ := run_decomp cfg
+  have hq := filter_isResp_quiet init q
+  cases hx' : (tries cfg).2.1 with
+  | none =>
+    rw [hx'] at h; simp only at h
+    rw [h]
+    simp only [List.filter_append, hq, List.nil_append, respLoop_filter, Option.isSome_none, Bool.not_false]
+    exact respLoop_call_at _ _ _ true .ok k j a hk hno
+  | some ce =>
+    obtain ⟨c, e⟩ := ce
+    rw [hx'] at h; simp only at h
+    have hf := hx c e hx'
+    have he := handle_escapes c.site e
+    cases hh : (handle c.site e).2 with
+    | none => rw [he.mp hh] at hf; cases hf
+    | some st =>
+      rw [hh] at h; rw [h.2]
+      have := respLoop_call_at (enum cfg.comps) (tries cfg).2.2.1 _ false st k j a hk hno
+      simp only [List.filter_append, hq, List.nil_append, respLoop_filter, List.filter_cons, isResp_of_notRespCall c _ h.1,
+        Bool.false_eq_true, if_false, handle_filter_isResp, Option.isSome_some, Bool.not_true]
+      exact this
+
+/-- **a handled raise does not end the response phase**: if the `k`-th `process_response` raises an error that is handled
+    (its handler exists and raises at most HTTPError/HTTPStatus), the next method of the stack is called all the same,
+    with `req_succeeded = False` -/
+theorem handled_raise_continues_response_phase (cfg : Cfg) (k j j' : Nat) (e : Exc) (a' : Act)
+    (hx : ∀ c e, (tries cfg).2.1 = some (c, e) → e.escapes = false)
+    (hk : (respActs (enum cfg.comps) (tries cfg).2.2.2)[k]? = some (j, .raise_ e)) (he : e.escapes = false)
+    (hk' : (respActs (enum cfg.comps) (tries cfg).2.2.2)[k + 1]? = some (j', a'))
+    (hno : ((respActs (enum cfg.comps) (tries cfg).2.2.2).take k).all (fun p => !p.2.escapes) = true) :
+    ((run cfg).1.filter Ev.isResp)[k + 1]? = some (.call (.resp j' (tries cfg).2.2.1 false) a') := by
+  have hno' : ((respActs (enum cfg.comps) (tries cfg).2.2.2).take (k + 1)).all (fun p => !p.2.escapes) = true := by
+    rw [List.take_add_one, hk, List.all_append, hno]; simp [Act.escapes, he]
+  have := resp_call_at cfg (k + 1) j' a' hx hk' hno'
+  rw [this, List.take_add_one, hk, List.all_append]
+  simp [Act.raises]
+
+
+/-! ### the labels: each call is labelled with the action the configuration assigns to that method -/
+
+def actAt (cfg : Cfg) : Call → Option Act
+  | .req i => (cfg.comps[i]?).bind (·.req)
+  | .rsrc i => (cfg.comps[i]?).bind (·.rsrc)
+  | .resp i _ _ => (cfg.comps[i]?).bind (·.resp)
+  | .responder => if cfg.target = .route ∨ cfg.target = .sink then some cfg.responder else none
+  | .defaultResponder =>
+    match cfg.target with
+    | .noMethod => some (.raise_ (.http .notAllowed))
+    | .nothing => some (.raise_ (.http .notFound))
+    | _ => none
+
+def Labelled (cfg : Cfg) (t : List Ev) : Prop := ∀ c a, Ev.call c a ∈ t → actAt cfg c = some a
+
+/-- the list is a part of the numbered component list -/
+def Sub (cfg : Cfg) (l : List (Nat × Comp)) : Prop := ∀ p ∈ l, cfg.comps[p.1]? = some p.2
+
+theorem enum_sub (cfg : Cfg) : Sub cfg (enum cfg.comps) := by
+  intro p hp
+  unfold enum at hp
+  obtain ⟨k, hk, rfl⟩ := List.getElem_of_mem hp
+  simp only [List.length_zip, List.length_range, Nat.min_self] at hk
+  simp [hk]
+
+theorem Labelled_append {cfg : Cfg} {a b : List Ev} (ha : Labelled cfg a) (hb : Labelled cfg b) : Labelled cfg (a ++ b) := by
+  intro c x hm
+  rcases List.mem_append.mp hm with h | h
+  · exact ha c x h
+  · exact hb c x h
+
+theorem Labelled_nil (cfg : Cfg) : Labelled cfg [] := by intro c a h; cases h
+
+theorem Labelled_single {cfg : Cfg} {c : Call} {a : Act} (h : actAt cfg c = some a) : Labelled cfg [.call c a] := by
+  intro c' a' hm
+  simp only [List.mem_singleton, Ev.call.injEq] at hm
+  obtain ⟨rfl, rfl⟩ := hm
+  exact h
+
+theorem Labelled_handle (cfg : Cfg) (s : Site) (e : Exc) : Labelled cfg (handle s e).1 := by
+  intro c a hm
+  have := handle_events s e _ hm
+  cases this
+
+theorem Sub_tail {cfg : Cfg} {x : Nat × Comp} {xs : List (Nat × Comp)} (h : Sub cfg (x :: xs)) : Sub cfg xs :=
+  fun p hp => h p (List.mem_cons_of_mem _ hp)
+
+theorem reqIndep_labelled (cfg : Cfg) : ∀ l : List (Nat × Comp), Sub cfg l → Labelled cfg (reqIndep l).1 := by
+  intro l
+  induction l with
+  | nil => intro _; exact Labelled_nil cfg
+  | cons x xs ih =>
+    intro hs
+    obtain ⟨i, c⟩ := x
+    have hc : cfg.comps[i]? = some c := hs (i, c) List.mem_cons_self
+    have ih := ih (Sub_tail hs)
+    cases hr : c.req with
+    | none => simpa [reqIndep, hr] using ih
+    | some a =>
+      have hl : Labelled cfg [.call (.req i) a] := Labelled_single (by simp [actAt, hc, hr])
+      cases a with
+      | ret => simpa [reqIndep, hr] using Labelled_append hl ih
+      | complete => simpa [reqIndep, hr] using hl
+      | raise_ e => simpa [reqIndep, hr] using hl
+
+theorem rsrcLoop_labelled (cfg : Cfg) : ∀ l : List (Nat × Comp), Sub cfg l → Labelled cfg (rsrcLoop l).1 := by
+  intro l
+  induction l with
+  | nil => intro _; exact Labelled_nil cfg
+  | cons x xs ih =>
+    intro hs
+    obtain ⟨i, c⟩ := x
+    have hc : cfg.comps[i]? = some c := hs (i, c) List.mem_cons_self
+    have ih := ih (Sub_tail hs)
+    cases hr : c.rsrc with
+    | none => simpa [rsrcLoop, hr] using ih
+    | some a =>
+      have hl : Labelled cfg [.call (.rsrc i) a] := Labelled_single (by simp [actAt, hc, hr])
+      cases a with
+      | ret => simpa [rsrcLoop, hr] using Labelled_append hl ih
+      | complete => simpa [rsrcLoop, hr] using hl
+      | raise_ e => simpa [rsrcLoop, hr] using hl
+
+theorem reqDep_labelled (cfg : Cfg) : ∀ (l : List (Nat × Comp)) (cp : Bool), Sub cfg l → Labelled cfg (reqDep l cp).1 := by
+  intro l
+  induction l with
+  | nil => intro _ _; exact Labelled_nil cfg
+  | cons x xs ih =>
+    intro cp hs
+    obtain ⟨i, c⟩ := x
+    have hc : cfg.comps[i]? = some c := hs (i, c) List.mem_cons_self
+    have ih := fun cp => ih cp (Sub_tail hs)
+    cases cp with
+    | true => simpa [reqDep] using ih true
+    | false =>
+      cases hr : c.req with
+      | none => simpa [reqDep, hr] using ih false
+      | some a =>
+        have hl : Labelled cfg [.call (.req i) a] := Labelled_single (by simp [actAt, hc, hr])
+        cases a with
+        | ret => simpa [reqDep, hr] using Labelled_append hl (ih false)
+        | complete => simpa [reqDep, hr] using Labelled_append hl (ih true)
+        | raise_ e => simpa [reqDep, hr] using hl
+
+theorem respLoop_labelled (cfg : Cfg) (cs : List (Nat × Comp)) (hs : Sub cfg cs) (hasRes : Bool) :
+    ∀ (order : List Nat) (succ : Bool) (st : Status), Labelled cfg (respLoop cs order hasRes succ st).1 := by
+  intro order
+  induction order with
+  | nil => intro succ st; exact Labelled_nil cfg
+  | cons i rest ih =>
+    intro succ st
+    rw [respLoop]
+    cases h : (cs.find? (·.1 == i)).bind (·.2.resp) with
+    | none => exact ih succ st
+    | some a =>
+      have hl : Labelled cfg [.call (.resp i hasRes succ) a] := by
+        apply Labelled_single
+        cases hf : cs.find? (·.1 == i) with
+        | none => simp [hf] at h
+        | some p =>
+          have hm := List.mem_of_find?_eq_some hf
+          have hp := List.find?_some hf
+          simp only [beq_iff_eq] at hp
+          have := hs p hm
+          rw [hp] at this
+          simp only [hf, Option.bind_some] at h
+          simp [actAt, this, h]
+      cases a with
+      | ret => exact Labelled_append hl (ih succ st)
+      | complete => exact Labelled_append hl (ih succ st)
+      | raise_ e =>
+        have hh' := Labelled_handle cfg (.resp i) e
+        rcases hh : handle (.resp i) e with ⟨hd, _ | st'⟩
+        · rw [hh] at hh'
+          simpa [hh] using Labelled_append hl hh'
+        · rw [hh] at hh'
+          simpa [hh] using Labelled_append hl (Labelled_append hh' (ih false st'))
+
+theorem responderOf_labelled (cfg : Cfg) : actAt cfg (responderOf cfg).1 = some (responderOf cfg).2 := by
+  unfold responderOf
+  cases h : cfg.target <;> simp [actAt, h]
+
+theorem tryBody2_labelled (cfg : Cfg) (cp1 hasRes : Bool) : Labelled cfg (tryBody2 cfg (enum cfg.comps) cp1 hasRes).1 := by
+  have hR := rsrcLoop_labelled cfg (enum cfg.comps) (enum_sub cfg)
+  unfold tryBody2
+  rcases hr : rsrcLoop (enum cfg.comps) with ⟨t2, cp2, x2⟩
+  rw [hr] at hR
+  have hR' : Labelled cfg (if hasRes = true then (t2, cp2, x2) else ([], false, none)).1 := by
+    cases hasRes
+    · exact Labelled_nil cfg
+    · exact hR
+  generalize (if hasRes = true then (t2, cp2, x2) else ([], false, none)) = r at hR'
+  obtain ⟨t2', cp2', x2'⟩ := r
+  cases x2' with
+  | some ce => exact hR'
+  | none =>
+    simp only
+    split
+    · exact hR'
+    · exact Labelled_append hR' (Labelled_single (responderOf_labelled cfg))
+
+theorem afterReq_labelled (cfg : Cfg) (order : List Nat) (t1 : List Ev) (cp1 : Bool) (x1 : Option (Call × Exc))
+    (h : Labelled cfg t1) : Labelled cfg (afterReq cfg (enum cfg.comps) order t1 cp1 x1).1 := by
+  cases x1 with
+  | some ce => exact h
+  | none => exact Labelled_append h (tryBody2_labelled cfg cp1 _)
+
+theorem tries_labelled (cfg : Cfg) : Labelled cfg (tries cfg).1 := by
+  unfold tries
+  cases cfg.independent
+  · exact afterReq_labelled _ _ _ _ _ (reqDep_labelled cfg _ false (enum_sub cfg))
+  · exact afterReq_labelled _ _ _ _ _ (reqIndep_labelled cfg _ (enum_sub cfg))
+
+/-- **the label of every call in the trace is the action the configuration assigns to the method called** (component `i`'s
+    `process_request` / `process_resource` / `process_response`, the application's responder when a route or sink matched,
+    falcon's 405 / 404 responder otherwise) -/
+theorem labels_correct (cfg : Cfg) (c : Call) (a : Act) (h : Ev.call c a ∈ (run cfg).1) : actAt cfg c = some a := by
+  have ht := tries_labelled cfg
+  revert c a
+  show Labelled cfg (run cfg).1
+  unfold run
+  rcases htr : tries cfg with ⟨pre, x, hasRes, order⟩
+  rw [htr] at ht
+  simp only at ht ⊢
+  cases x with
+  | none => exact Labelled_append ht (respLoop_labelled cfg _ (enum_sub cfg) _ _ _ _)
+  | some ce =>
+    obtain ⟨c, e⟩ := ce
+    have hh' := Labelled_handle cfg c.site e
+    simp only [exceptClause]
+    rcases hh : handle c.site e with ⟨hd, _ | st⟩
+    · rw [hh] at hh'; exact Labelled_append ht hh'
+    · rw [hh] at hh'; exact Labelled_append (Labelled_append ht hh') (respLoop_labelled cfg _ (enum_sub cfg) _ _ _ _)
+
+/-! ### corollary: when every raise is handled the run is `Pl.run` -/
+
+/-- no method of the configuration raises an error that has no handler or whose handler raises a plain exception -/
+def Benign (cfg : Cfg) : Prop :=
+  (∀ c ∈ cfg.comps, ∀ a, c.req = some a ∨ c.rsrc = some a ∨ c.resp = some a → a.escapes = false) ∧
+  cfg.responder.escapes = false
+
+theorem benign_not_escaped (cfg : Cfg) (hb : Benign cfg) : (run cfg).2 ≠ .escaped := by
+  intro hesc
+  obtain ⟨c, e, hm, he⟩ := (escape_iff cfg).mp hesc
+  have hl := labels_correct cfg c _ hm
+  have hesc : (Act.raise_ e).escapes = true := by rcases he with rfl | rfl <;> rfl
+  have key : ∀ (i : Nat) (sel : Comp → Option Act), (∀ c a, sel c = some a → c.req = some a ∨ c.rsrc = some a ∨ c.resp = some a) →
+      (cfg.comps[i]?).bind sel = some (.raise_ e) → False := by
+    intro i sel hsel h
+    cases hc : cfg.comps[i]? with
+    | none => simp [hc] at h
+    | some comp =>
+      simp only [hc, Option.bind_some] at h
+      have := hb.1 comp (List.mem_of_getElem? hc) _ (hsel _ _ h)
+      rw [hesc] at this; cases this
+  cases c with
+  | req i => exact key i (·.req) (fun _ _ h => Or.inl h) hl
+  | rsrc i => exact key i (·.rsrc) (fun _ _ h => Or.inr (Or.inl h)) hl
+  | resp i _ _ => exact key i (·.resp) (fun _ _ h => Or.inr (Or.inr h)) hl
+  | responder =>
+    simp only [actAt] at hl
+    split at hl
+    · injection hl with hl
+      have := hb.2
+      rw [hl, hesc] at this; cases this
+    · cases hl
+  | defaultResponder =>
+    simp only [actAt] at hl
+    split at hl
+    · injection hl with hl; injection hl with hl; subst hl; rcases he with h | h <;> cases h
+    · injection hl with hl; injection hl with hl; subst hl; rcases he with h | h <;> cases h
+    · cases hl
+
+/-- **`run_refines_Pl` for the configurations `Pl.run` was written for**: if every raise in the configuration is one that
+    "some registered handler takes" (the handler exists and does not raise a plain exception), the calls made are exactly
+    `Pl.run` — hence `Pl.run_eq_spec` and every theorem about `Pl.run` describe them — and a response is produced -/
+theorem run_refines_Pl_of_benign (cfg : Cfg) (hb : Benign cfg) :
+    proj (run cfg).1 = Pl.run (absCfg cfg) ∧ ∃ st, (run cfg).2 = .responded st := by
+  have hne := benign_not_escaped cfg hb
+  refine ⟨run_refines_Pl cfg hne, ?_⟩
+  cases ho : (run cfg).2 with
+  | escaped => exact absurd ho hne
+  | responded st => exact ⟨st, rfl⟩
+
+/-! ### non-vacuity -/
+
+-- three components, independent mode; the responder raises an HTTPError (handled by falcon's own handler); the last
+-- component's process_response raises an application error whose handler raises HTTPStatus: the loop goes on, flag false
+example : run { comps := [⟨some .ret, none, some .ret⟩, ⟨some .ret, some .ret, some (.raiseApp .raisesStatus)⟩, ⟨none, none, some .ret⟩],
+                independent := true, target := .route, responder := .raiseHttp }
+    = ([.call (.req 0) .ret, .call (.req 1) .ret, .call (.rsrc 1) .ret, .call .responder .raiseHttp, .handler .responder (.http .app),
+        .call (.resp 2 true false) .ret, .call (.resp 1 true false) (.raiseApp .raisesStatus), .handler (.resp 1) (.app .raisesStatus),
+        .call (.resp 0 true false) .ret], .responded .handlerStatus) := by decide
+-- the same stack, but that handler raises a plain exception: the exception escapes, component 0 is not called
+example : run { comps := [⟨some .ret, none, some .ret⟩, ⟨some .ret, some .ret, some (.raiseApp .raisesPlain)⟩, ⟨none, none, some .ret⟩],
+                independent := true, target := .route, responder := .ret }
+    = ([.call (.req 0) .ret, .call (.req 1) .ret, .call (.rsrc 1) .ret, .call .responder .ret,
+        .call (.resp 2 true true) .ret, .call (.resp 1 true true) (.raiseApp .raisesPlain), .handler (.resp 1) (.app .raisesPlain)],
+       .escaped) := by decide
+-- dependent mode, no route: falcon's 404 responder raises, `_http_error_handler` takes it
+example : run { comps := [⟨some .ret, none, some .ret⟩], independent := false, target := .nothing, responder := .ret }
+    = ([.call (.req 0) .ret, .call .defaultResponder (.raise_ (.http .notFound)), .handler .defaultResponder (.http .notFound),
+        .call (.resp 0 false false) .ret], .responded (.http .notFound)) := by decide
+-- an error nothing is registered for, raised by a process_request: no handler event, nothing further
+example : run { comps := [⟨some .ret, none, some .ret⟩, ⟨some (.raiseApp .none), none, some .ret⟩], independent := true,
+                target := .route, responder := .ret }
+    = ([.call (.req 0) .ret, .call (.req 1) (.raiseApp .none)], .escaped) := by decide
+example : Benign { comps := [⟨some .ret, none, some (.raiseApp .raisesHttp)⟩, ⟨some .raiseStatus, none, some .complete⟩],
+                   independent := false, target := .sink, responder := .raiseApp .default } := by
+  refine ⟨?_, rfl⟩
+  intro c hc a ha
+  simp only [List.mem_cons, List.not_mem_nil, or_false] at hc
+  rcases hc with rfl | rfl <;> rcases ha with h | h | h <;> simp at h <;> subst h <;> rfl
+
+
+/-! ### link to the C04 model of `_handle_exception` (`Eh.handle`): same verdict on "does the exception leave `__call__`" -/
+
+/-- the behaviour (in the vocabulary of `Eh`) of the handler found for `e`; `none`: no handler is found -/
+def behOf : Exc → Option Eh.Beh
+  | .http _ => some .defaultHttp
+  | .status => some .defaultStatus
+  | .app .sets => some (.sets (some 418) none none none)
+  | .app .default => some .defaultException
+  | .app .raisesHttp => some (.raisesHttp 409)
+  | .app .raisesStatus => some (.raisesStatus 299)
+  | .app .raisesPlain => some .raisesOther
+  | .app .none => none
+
+theorem handle_agrees_Eh (s : Site) (e : Exc) (reg : Eh.Reg) (beh : Eh.Handler → Eh.Beh) (mro : List Eh.Cls) (rs : Nat) (r : Eh.Resp)
+    (hfind : match behOf e with
+             | none => Eh.find reg mro = none
+             | some b => ∃ h, Eh.find reg mro = some h ∧ beh h = b) :
+    (Eh.handle reg beh mro rs r = none ↔ (handle s e).2 = none) := by
+  unfold Eh.handle
+  cases e with
+  | http c => obtain ⟨h, h1, h2⟩ := hfind; simp [h1, h2, handle]
+  | status => obtain ⟨h, h1, h2⟩ := hfind; simp [h1, h2, handle]
+  | app hb =>
+    cases hb with
+    | none => simp only [behOf] at hfind; simp [hfind, handle]
+    | sets => obtain ⟨h, h1, h2⟩ := hfind; simp [h1, h2, handle]
+    | default => obtain ⟨h, h1, h2⟩ := hfind; simp [h1, h2, handle]
+    | raisesHttp => obtain ⟨h, h1, h2⟩ := hfind; simp [h1, h2, handle]
+    | raisesStatus => obtain ⟨h, h1, h2⟩ := hfind; simp [h1, h2, handle]
+    | raisesPlain => obtain ⟨h, h1, h2⟩ := hfind; simp [h1, h2, handle]
+
+-- `handled_raise_continues_response_phase` applies: stack [2, 1, 0]; the second method raises, its handler raises HTTPStatus
+example : ((run { comps := [⟨some .ret, none, some .ret⟩, ⟨some .ret, some .ret, some (.raiseApp .raisesStatus)⟩, ⟨none, none, some .ret⟩],
+                  independent := true, target := .route, responder := .raiseHttp }).1.filter Ev.isResp)[2]?
+    = some (.call (.resp 0 true false) .ret) :=
+  handled_raise_continues_response_phase _ 1 1 0 (.app .raisesStatus) .ret
+    (by intro c e h
+        have : (tries { comps := [⟨some .ret, none, some .ret⟩, ⟨some .ret, some .ret, some (.raiseApp .raisesStatus)⟩, ⟨none, none, some .ret⟩],
+                        independent := true, target := .route, responder := .raiseHttp }).2.1 = some (.responder, .http .app) := by decide
+        rw [this] at h; injection h with h; injection h with _ h; subst h; rfl)
+    (by decide) rfl (by decide) (by decide)
+
 end Pe
